@@ -5,7 +5,7 @@
    [rec]/[wh] (how nested code and while$ loops are run) are universally quantified in the
    per-built-in laws; [exec n] / [while_loop n] are the instances the interpreter uses. *)
 From Pybtex Require Import Base.Prelude Base.PyChar Base.PyStr Model.BibtexStr Model.Wrap Model.Bst
-  Proofs.Bst Proofs.BstSort.
+  Spec.BstSem Proofs.Bst Proofs.BstSort Proofs.BstSem.
 From Coq Require Import Permutation Sorted.
 
 (* --- more fuel never changes the outcome of a run that ended (normally or with an error) *)
@@ -254,6 +254,23 @@ Theorem write_newline_spec : forall fmt cw rec wh st buffer w,
 Proof. exact Proofs.Bst.write_newline_spec. Qed.
 Print Assumptions write_newline_spec.
 
+
+(* --- the interpreter model computes exactly the documented big-step semantics (Spec/BstSem.v):
+       whatever a run with some fuel returns is derivable, and every derivable run is found with
+       enough fuel.  while$ and if$ are given there by inference rules, without fuel. *)
+Theorem exec_sound : forall fmt cw n st p st', exec fmt cw n st p = Ok st' -> bigsteps fmt cw st p st'.
+Proof. exact Proofs.BstSem.exec_sound. Qed.
+Print Assumptions exec_sound.
+
+Theorem exec_complete : forall fmt cw st p st', bigsteps fmt cw st p st' -> exists n, exec fmt cw n st p = Ok st'.
+Proof. exact Proofs.BstSem.exec_complete. Qed.
+Print Assumptions exec_complete.
+
+Theorem while_sound : forall fmt cw n st p f st',
+  while_loop fmt cw n st p f = Ok st' -> whilerel fmt cw st p f st'.
+Proof. exact Proofs.BstSem.while_sound. Qed.
+Print Assumptions while_sound.
+
 (* ---------------------------------------------------------------------------------- *)
 (* non-vacuity: the hypotheses are met by the interpreter's real initial state, and the
    statements compute the expected values *)
@@ -329,3 +346,11 @@ Qed.
 Example newline_example :
   wrap (concat [s2l "ab"; s2l "c"]) 79 [c_space; c_space] = Ok (s2l "abc").
 Proof. vm_compute. reflexivity. Qed.
+
+(* a derivation in the big-step semantics: #1 { "t" } { "e" } if$ leaves "t" *)
+Example bigstep_example :
+  bigsteps fmt0 cw0 st0 [IInt 1; IFun [IStr (s2l "t")]; IFun [IStr (s2l "e")]; IId (s2l "if$")]
+           (push (VStr (s2l "t")) st0).
+Proof.
+  eapply exec_sound with (n := 10). vm_compute. reflexivity.
+Qed.
